@@ -134,8 +134,24 @@ def deep_search_cases(draw):
             "profile": "deep-search"}
 
 
+@st.composite
+def many_bins_cases(draw):
+    """5-6 bins and 5-8 items drawn from a few small values: merged sum vectors with repeated entries, where the two managers'
+    pairing enumerators must both keep multiplicities."""
+    alg = draw(st.sampled_from(["ckk", "ckk", "ckk", "snp", "cg", "kk"]))
+    k = draw(st.sampled_from([5, 5, 6]))
+    n = draw(st.integers(5, 8 if k == 5 else 7))
+    seed = draw(st.integers(0, 2 ** 40))
+    pool = S.splitmix(seed, 2 + seed % 3, 0, 12)
+    values = [pool[i % len(pool)] for i in S.splitmix(seed + 1, n, 0, 59)]
+    case = {"alg": alg, "values": values, "numbins": k, "pres": "list", "nseed": 0, "profile": "many-bins"}
+    if alg == "cg":
+        case["opts"] = {"objective": draw(st.sampled_from(S.CG_OBJECTIVES)), "switches": [1, 1, 0, 1]}
+    return case
+
+
 def valid_deep(case):
-    return (case.get("alg") in ("snp", "rnp", "ckk") and case.get("numbins") in (2, 3, 4, 5) and isinstance(case.get("values"), list)
+    return (case.get("alg") in ("snp", "rnp", "ckk", "cg", "kk") and case.get("numbins") in (2, 3, 4, 5, 6) and isinstance(case.get("values"), list)
             and 1 <= len(case["values"]) <= 10 and all(isinstance(v, int) and v >= 0 for v in case["values"]))
 
 
@@ -161,6 +177,8 @@ def legs(tier):
             strategy=random_cases(), n_quick=4000, n_thorough=80000, valid=valid, floor=0.4),
         Leg("deep-search", evaluate, "hypothesis: snp / rnp / ckk with 4-5 bins and 6-9 evenly spread items (their nested recursion levels run); same rule",
             strategy=deep_search_cases(), n_quick=320, n_thorough=8000, valid=valid_deep, floor=0.4),
+        Leg("many-bins", evaluate, "hypothesis: ckk (mostly), snp, cg, kk with 5-6 bins on 5-8 items drawn from 2-4 small values; same rule",
+            strategy=many_bins_cases(), n_quick=1200, n_thorough=24000, valid=valid_deep, floor=0.3),
         Leg("bc-search", evaluate, "hypothesis: bin_completion on planted 'hard' instances where its search is entered; same rule",
             strategy=bc_search_cases(), n_quick=300, n_thorough=6000, valid=valid, floor=0.4),
     ]
